@@ -1,5 +1,5 @@
 import Urandom.Generated.Simd
-import Urandom.Props.C02
+import Urandom.Lemmas.ChaChaBase
 /-
 The translated SIMD programs (`Generated/Simd.lean`, from `src/rng/chacha/{slp,sse2,avx2}.rs`) compute the four
 ChaCha blocks of the row-wise model - and hence Bernstein's block function - for every state and every round count.
@@ -395,7 +395,7 @@ theorem addCounter_zero (s : State) : s.addCounter 0#64 = s := by
   unfold State.addCounter
   rw [BitVec.add_zero]
   cases s
-  simp only [State.setCounter, State.getCounter, C02.lo32_join64, C02.hi32_join64]
+  simp only [State.setCounter, State.getCounter, ChaChaBase.lo32_join64, ChaChaBase.hi32_join64]
 
 /-- **a translated program that passes the three kernel-decided facts, loops `N / 2` times over the input blocks at
 counter offsets 0, 1, 2, 3 and then adds 4 to the counter IS the row-wise model `ChaCha.block`** -/
@@ -418,7 +418,7 @@ theorem block_eq (p : Prog) (h : CorrectT p) (hoff : p.ctrOffsets = [0, 1, 2, 3]
     simp only [outOf, List.zipWith_cons_cons, List.zipWith_nil_right, List.flatMap_cons, List.flatMap_nil, List.append_nil, List.append_assoc]
     rfl
   rw [hout]
-  simp only [ChaCha.block, batchWords, C02.rowBlock_eq_spec, specBlockOf, dbl_eq]
+  simp only [ChaCha.block, batchWords, ChaChaBase.rowBlock_eq_spec, specBlockOf, dbl_eq]
   congr 1
 
 end Urandom.Simd
